@@ -49,3 +49,32 @@ def np_unique(interp, x, return_counts=False, **kw):
 
 def register(lib):
     lib.np["unique"] = LibFunc("np.unique", np_unique)
+
+
+def math_modf(interp, x):
+    """math.modf(x) -> (fractional part, integral part), x = integral + fractional, integral = trunc(x).
+    For x = sqrt(k) with k a non-negative integer (k < 2**52) the fractional part is zero exactly when k is a perfect square:
+    in the engine sqrt of a perfect square is the exact rational root, every other root is c*sqrt(m) with m > 1 square-free,
+    which is irrational, hence has a non-zero fractional part (assumed: the correctly rounded float root of a non-square is not an integer)."""
+    from fractions import Fraction
+
+    from pyvc.sv import _split_coeff, is_conc, norm, zr
+    x = norm(x)
+    if is_conc(x):
+        f = Fraction(x)
+        ip = int(f)
+        return (f - ip, Fraction(ip))
+    ip = sv.to_real(sv.trunc(x))
+    frac = sv.sub(x, ip)
+    q, rest = _split_coeff(z3.simplify(zr(x)))
+    if rest is not None and z3.is_app(rest) and rest.decl().name() == "sqrt" and z3.is_rational_value(rest.arg(0)) and q != 0:
+        cur().assume(sv.cmp("!=", frac, 0))
+    return (frac, ip)
+
+
+_reg0 = register
+
+
+def register(lib):       # noqa: F811
+    _reg0(lib)
+    lib.mods["math"]["modf"] = LibFunc("math.modf", math_modf)
